@@ -111,6 +111,7 @@ func facts(f *hc.Facts) {
 	sort.Strings(mig)
 	f.Raw("/-- assignments of pool.SyncSession.Migrate (field=param|zero|<source>), sorted -/")
 	f.Raw("def migrateAssigns : List String := " + leanStrList(mig))
+	connLayerFacts(f)
 	// the handlers: clientHandler.OnSession -> onSession, cdnClientHandler.OnSession -> onCDNSession
 	for _, h := range []struct{ lean, name string }{{"regularHandlerCalls", "clientHandler.OnSession"}, {"cdnHandlerCalls", "cdnClientHandler.OnSession"}} {
 		fd := f.FuncDecl("telegram", h.name)
@@ -392,6 +393,138 @@ func fit(n int, b []byte) []byte {
 }
 
 // ---------------------------------------------------------------------------------------------
+
+// connLayerFacts classifies, structurally, the statements of manager.Conn's session/config bookkeeping.
+func connLayerFacts(f *hc.Facts) {
+	const dir = "telegram/internal/manager"
+	src := func(n ast.Node) string { return strings.Join(strings.Fields(f.Src(n)), " ") }
+	emit := func(name string, tags []string, why string) {
+		if tags == nil {
+			f.Missing(name, why)
+			return
+		}
+		f.Raw("def " + name + " : List String := " + leanStrList(tags))
+	}
+	// Conn.OnSession
+	var on []string
+	if fd := f.FuncDecl(dir, "Conn.OnSession"); fd != nil && fd.Body != nil && len(fd.Type.Params.List) == 1 {
+		param := fd.Type.Params.List[0].Names[0].Name
+		for _, st := range fd.Body.List {
+			switch v := st.(type) {
+			case *ast.AssignStmt:
+				if src(v) == "c.pending = append(c.pending, "+param+")" {
+					on = append(on, "buffer")
+				}
+			case *ast.IfStmt:
+				if src(v.Cond) == "!c.configReady()" && len(v.Body.List) == 1 && src(v.Body.List[0]) == "return nil" {
+					on = append(on, "wait-config")
+				} else {
+					on = append(on, "if "+src(v.Cond))
+				}
+			case *ast.ReturnStmt:
+				if src(v) == "return c.flushPendingSession()" {
+					on = append(on, "flush")
+				} else {
+					on = append(on, src(v))
+				}
+			}
+		}
+	}
+	emit("connOnSession", on, "manager.Conn.OnSession not found")
+	// Conn.flushPendingSession
+	var fl []string
+	if fd := f.FuncDecl(dir, "Conn.flushPendingSession"); fd != nil && fd.Body != nil {
+		copyVar, cfgVar := "", ""
+		for _, st := range fd.Body.List {
+			switch v := st.(type) {
+			case *ast.ExprStmt:
+				switch src(v.X) {
+				case "c.mux.Lock()":
+					fl = append(fl, "lock")
+				case "c.mux.Unlock()":
+					fl = append(fl, "unlock")
+				}
+			case *ast.AssignStmt:
+				s := src(v)
+				switch {
+				case strings.HasSuffix(s, ":= append([]mtproto.Session(nil), c.pending...)"):
+					copyVar = strings.TrimSpace(strings.Split(s, ":=")[0])
+					fl = append(fl, "copy")
+				case strings.HasSuffix(s, ":= c.cfg"):
+					cfgVar = strings.TrimSpace(strings.Split(s, ":=")[0])
+					fl = append(fl, "read-cfg")
+				case s == "c.pending = c.pending[:0]" || s == "c.pending = nil":
+					fl = append(fl, "clear")
+				default:
+					fl = append(fl, s)
+				}
+			case *ast.RangeStmt:
+				tag := "range " + src(v.X)
+				if src(v.X) == copyVar && v.Value != nil {
+					val := src(v.Value)
+					ast.Inspect(v.Body, func(n ast.Node) bool {
+						if c, ok := n.(*ast.CallExpr); ok && src(c.Fun) == "c.handler.OnSession" && len(c.Args) == 2 &&
+							src(c.Args[0]) == cfgVar && src(c.Args[1]) == val {
+							tag = "deliver-each(cfg,s)"
+						}
+						return true
+					})
+				}
+				fl = append(fl, tag)
+			}
+		}
+	}
+	emit("connFlush", fl, "manager.Conn.flushPendingSession not found")
+	// Conn.init: CDN branch and regular path
+	var cdn, reg []string
+	if fd := f.FuncDecl(dir, "Conn.init"); fd != nil && fd.Body != nil {
+		classify := func(stmts []ast.Stmt, out *[]string) {
+			for _, st := range stmts {
+				ast.Inspect(st, func(n ast.Node) bool {
+					switch v := n.(type) {
+					case *ast.FuncLit:
+						// the retry closure around proto.Invoke
+						ast.Inspect(v.Body, func(m ast.Node) bool {
+							if c, ok := m.(*ast.CallExpr); ok && src(c.Fun) == "c.proto.Invoke" && len(c.Args) == 3 && src(c.Args[2]) == "&cfg" {
+								*out = append(*out, "cfg<-server")
+							}
+							return true
+						})
+						return false
+					case *ast.AssignStmt:
+						switch src(v) {
+						case "c.cfg = tg.Config{ThisDC: c.dc}":
+							*out = append(*out, "cfg=this-dc(conn.dc)")
+						case "c.cfg = cfg":
+							*out = append(*out, "cfg=server")
+						default:
+							if strings.HasPrefix(src(v), "c.cfg") {
+								*out = append(*out, src(v))
+							}
+						}
+					case *ast.CallExpr:
+						switch src(v) {
+						case "c.gotConfig.Signal()":
+							*out = append(*out, "ready")
+						case "c.flushPendingSession()":
+							*out = append(*out, "flush")
+						}
+					}
+					return true
+				})
+			}
+		}
+		for i, st := range fd.Body.List {
+			if ifs, ok := st.(*ast.IfStmt); ok && src(ifs.Cond) == "c.mode == ConnModeCDN" {
+				classify(ifs.Body.List, &cdn)
+				classify(fd.Body.List[i+1:], &reg)
+				break
+			}
+		}
+	}
+	emit("connInitCDN", cdn, "manager.Conn.init: CDN branch not found")
+	emit("connInitRegular", reg, "manager.Conn.init: regular path not found")
+}
 
 func run(c *hc.Ctx) error {
 	r := c.Rng
@@ -742,6 +875,9 @@ func run(c *hc.Ctx) error {
 	if err := runScripted(c); err != nil {
 		return err
 	}
+	if err := runConns(c); err != nil {
+		return err
+	}
 	return runConcurrent(c)
 }
 
@@ -1045,6 +1181,177 @@ func runConcurrent(c *hc.Ctx) error {
 	}
 	for i, o := range outs {
 		if c.Compare(lines[i], "reachable", o) {
+			c.Res.TracesValidated++
+		}
+	}
+	return nil
+}
+
+// ---------------------------------------------------------------------------------------------
+// the connection layer: real manager.Conn objects (hook VerifC30NewConn) wired to the real client
+// handlers; sessions are confirmed on them before / after their config arrives.
+
+func runConns(c *hc.Ctx) error {
+	r := c.Rng
+	n := c.N(1500, 40000)
+	var lines, impls []string
+	for i := 0; i < n; i++ {
+		primary := hc.Pick(r, 0, 2, 2, 3, 5)
+		st := &faultyStorage{}
+		v := telegram.VerifC30NewClient(primary, false, st)
+		type mc struct {
+			cdn      bool
+			dc, cfg  int
+			hasCfg   bool
+			conn     *telegram.VerifC30ManagedConn
+			serverDC int
+		}
+		var conns []*mc
+		// per connection: a script of events and one init, then interleave the scripts
+		type step struct {
+			id  int
+			act string
+		}
+		var scripts [][]step
+		nc := hc.Pick(r, 1, 2, 2, 3)
+		for id := 0; id < nc; id++ {
+			m := &mc{}
+			switch r.Intn(6) {
+			case 0, 1, 2:
+				m.dc = primary
+				if m.dc == 0 {
+					m.dc = 2
+				}
+			case 3, 4:
+				m.dc = 1 + r.Intn(5)
+			default:
+				m.cdn, m.dc = true, hc.Pick(r, 201, 203)
+			}
+			m.serverDC = m.dc
+			if r.Chance(12) { // the server's config names another DC (or none)
+				m.serverDC = hc.Pick(r, 0, 1+r.Intn(5))
+			}
+			conns = append(conns, m)
+			var sc []step
+			for k := r.Intn(3); k > 0; k-- {
+				sc = append(sc, step{id, "E"})
+			}
+			if r.Chance(90) {
+				sc = append(sc, step{id, "I"})
+				for k := r.Intn(3); k > 0; k-- {
+					sc = append(sc, step{id, "E"})
+				}
+			}
+			scripts = append(scripts, sc)
+		}
+		var acts []string
+		for id, m := range conns {
+			k := "r"
+			if m.cdn {
+				k = "c"
+			}
+			acts = append(acts, fmt.Sprintf("N:%s:%d", k, m.dc))
+			m.conn = v.VerifC30NewConn(m.dc, m.cdn, m.serverDC)
+			_ = id
+		}
+		type cand struct {
+			dc   int
+			key  crypto.AuthKey
+			salt int64
+		}
+		var pendingC [][]cand = make([][]cand, nc)
+		var cands []cand
+		buffered := false
+		for {
+			var live []int
+			for id, sc := range scripts {
+				if len(sc) > 0 {
+					live = append(live, id)
+				}
+			}
+			if len(live) == 0 {
+				break
+			}
+			id := live[r.Intn(len(live))]
+			stp := scripts[id][0]
+			scripts[id] = scripts[id][1:]
+			m := conns[id]
+			var err error
+			func() {
+				defer func() {
+					if p := recover(); p != nil {
+						err = fmt.Errorf("panic: %v", p)
+					}
+				}()
+				switch stp.act {
+				case "E":
+					x := notif{key: genKey(r), salt: int64(r.U64())}
+					if r.Chance(30) {
+						x.perm = genKey(r)
+					}
+					acts = append(acts, fmt.Sprintf("E:%d:%s,%s,%s,%s,%d", id, hc.Hex(x.key.Value[:]), hc.Hex(x.key.ID[:]),
+						hc.Hex(x.perm.Value[:]), hc.Hex(x.perm.ID[:]), x.salt))
+					cd := cand{key: x.eff(), salt: x.salt}
+					if m.hasCfg {
+						cd.dc = m.cfg
+						if !m.cdn {
+							cands = append(cands, cd)
+						}
+					} else {
+						buffered = true
+						pendingC[id] = append(pendingC[id], cd)
+					}
+					err = m.conn.VerifC30OnSession(mtproto.Session{Key: x.key, PermKey: x.perm, Salt: x.salt})
+				case "I":
+					acts = append(acts, fmt.Sprintf("I:%d:%d", id, m.serverDC))
+					m.hasCfg, m.cfg = true, m.serverDC
+					if m.cdn {
+						m.cfg = m.dc
+					}
+					for _, cd := range pendingC[id] {
+						cd.dc = m.cfg
+						if !m.cdn {
+							cands = append(cands, cd)
+						}
+					}
+					pendingC[id] = nil
+					err = m.conn.VerifC30Init(context.Background())
+				}
+			}()
+			if err != nil {
+				c.Fail("conn-layer-error", "conns "+strings.Join(acts, " ")[:min(400, len(strings.Join(acts, " ")))], err.Error())
+			}
+		}
+		state := showClient(v, st)
+		now := st.stored()
+		v.VerifC30Close()
+		line := fmt.Sprintf("conns 1 %d - %s", primary, strings.Join(acts, " "))
+		c.Eval(line, len(conns) >= 2 || buffered)
+		c.Count(fmt.Sprintf("conns.n=%d", nc))
+		if buffered {
+			c.Count("conns.session-before-config")
+		}
+		// monitor: the stored session pairs a key with the config DC of the connection that produced it
+		if now != nil {
+			ok := false
+			for _, cd := range cands {
+				if now.DC == cd.dc && bytes.Equal(now.AuthKey, cd.key.Value[:]) && bytes.Equal(now.AuthKeyID, cd.key.ID[:]) && now.Salt == cd.salt {
+					ok = true
+				}
+			}
+			if !ok {
+				c.Fail("stored-key-not-paired-with-its-connection-dc", line, "the storage holds "+showStored(now)+": no regular connection confirmed that key with that config DC")
+			}
+		}
+		lines = append(lines, line)
+		impls = append(impls, state)
+	}
+	outs, err := c.Drv.Batch(lines)
+	if err != nil {
+		return err
+	}
+	for i, o := range outs {
+		if c.Compare(lines[i], impls[i], o) {
 			c.Res.TracesValidated++
 		}
 	}
